@@ -177,6 +177,8 @@ inductive Err
   | invalidHeader | wrongVersion | typeError | invalidClass | objectClassError
   | readPastEnd | notReadEntire | streamFail | invalidIndex
   | uninit | oob | alloc
+  /-- `ScriptVariableErrors::BadHashCodeValue` out of `con::set::Archive` (a script exception, not an archive error) -/
+  | badHash
   deriving DecidableEq, Repr
 
 /-- an `ArchiveErrors::*` exception handed to the caller (as opposed to undefined behaviour) -/
